@@ -63,4 +63,20 @@ REG = {
                     "the memoised cost is bounded by, not equal to, the modelled uncached cost"],
         "assumptions": ["Op.cost in Model/Bls.lean counts what _symbolic.py enumerates (validated by the counters on every run)"],
     },
+    "C18": {
+        "module": "Props.C18",
+        "suites": [("values", (2500, 60000))],
+        "rule": "pairs of objects of one class built independently from equal or mutated descriptions: bit length set expressions, types (primitives, voids, arrays, sealed / delimited "
+                "structures and unions, incl. same-named composites with different contents nested in arrays), fields / padding / constants, expression values (rationals written "
+                "differently, booleans, NFC / NFD strings, sets); every public list accessor of both objects is mutated and re-queried, both objects are pickled and compared; "
+                "non-trivial = objects built successfully; distinct = distinct pair",
+        "technique": "Lean 4 theorems over the equality / hash keys of the model objects + differential correspondence and contract oracle on independently built object pairs",
+        "level_text": "Proved in Lean 4 for all values of the key model (Model/Values.lean): BitLengthSet / type / attribute / expression-value equality is reflexive and symmetric, equal objects have equal "
+                      "hash keys, objects differing in class, string form or (min, max, residues mod 32) are unequal, and BitLengthSet equality never separates two expressions that denote the same set. "
+                      "The key model is tied to the real __eq__/__hash__ by correspondence on every run; accessor aliasing and pickling are checked on the real objects.",
+        "level_note": _NOTE + " Object identity (aliasing of returned lists) and pickling are runtime notions: observed on the real objects only.",
+        "partial": ["lists returned by accessors are copies / pickling round-trips: runtime notions, checked by the oracle on every generated object, no theorem",
+                    "Python's hash() itself is not modelled: the theorem is about the tuple that is hashed"],
+        "assumptions": ["Model/Values.lean lists exactly what the __eq__/__hash__ methods inspect (validated by the values correspondence)"],
+    },
 }
